@@ -18,7 +18,7 @@ META = dict(
     level='proof',
     technique='Coq proof about a model of print_xact\'s per-posting decisions, of the reader on such lines and of posts_as_equity (print shows what was written; re-read of an exactly balanced transaction is accepted with the same exact amounts and costs; the two-posting elision is sound when both postings must balance; per-unit and total costs re-read to the same total; printing twice is stable; equity reproduces per-account per-commodity sums) + differential correspondence against ledger + implementation-only round-trip oracle',
     level_text='Theorems in coq/Properties/Properties_C06.v are stated for Model/Print.v: `decide` (post_has_simple_amount, the count == 2 && index == 2 elision, POST_CALCULATED / ITEM_GENERATED suppression, the @ / @@ choice with the printed per-unit cost |given_cost / amount|, state marks, bare 0 for a display-zero amount, read_back = amount_t::print then amount_t::parse at display precision with zero trimming), `reread` (what parse_post makes of such a line) followed by Model/Xact.v `finalize`, and `equity_account`. The model is tied to the code by tokenizing ledger\'s print output into the same decision records and by comparing finalize of the original and of the re-read printed text (exact rationals via the verif_rational hook).',
-    level_note='Trusted: Coq kernel; the MPFR display rounding model Base/Round.v (validated by C04); extraction/driver/harness for the correspondence. Layout (column widths, note placement, blank lines) is not modelled; it is covered by the byte-identity oracle print(print J) == print J only. Amount text <-> amount value is C04\'s subject (AmountText.v); here an amount is printed as the value the reader gets back (read_back). Not modelled: amount expressions `(expr)`, --generated, automated/periodic transactions in print, metadata set programmatically (print.cc:172-183), value-expression annotations, commodity styles beyond prefix/suffix, the iteration order of accounts in equity. Known findings F7 (virtual pair elision), F8 (zero amount printed as bare 0), F22 (posting state lost under a cleared/pending transaction), F23 (print fails with Divide by zero on `0 X @ price`).',
+    level_note='Trusted: Coq kernel; the MPFR display rounding model Base/Round.v (validated by C04); extraction/driver/harness for the correspondence. Layout (column widths, note placement, blank lines) is not modelled; it is covered by the byte-identity oracle print(print J) == print J only. Amount text <-> amount value is C04\'s subject (AmountText.v); here an amount is printed as the value the reader gets back (read_back). Not modelled: amount expressions `(expr)`, --generated, automated/periodic transactions in print, metadata set programmatically (print.cc:172-183), value-expression annotations, commodity styles beyond prefix/suffix, the iteration order of accounts in equity. Known findings F7 (virtual pair elision), F8 (zero amount printed as bare 0), F27 (posting state lost under a cleared/pending transaction), F28 (print fails with Divide by zero on `0 X @ price`).',
     design_ref='DESIGN.md section 7 C06',
     assumptions=['journals accepted by ledger (a journal with any error is outside the quantifier; erroneous transactions are dropped by the generator)',
                  'commodities $ EUR AAA BBB CCC without thousands marks or decimal comma (C04 covers styles)',
@@ -209,7 +209,7 @@ def gen_assign(rng, st):
 
 
 def gen_zero_cost(rng, st):
-    """`0 AAA @ $2.00`: print divides the given cost by the amount (finding F23)"""
+    """`0 AAA @ $2.00`: print divides the given cost by the amount (finding F28)"""
     return XXact([XPost('Assets:Broker:X', 'R', X.Amt(0, 0, 'AAA'), ('u', X.Amt(F(200, 100), 2, '$'))),
                   XPost('Assets:Bank', 'R', X.Amt(F(5), 2, '$')), XPost('Assets:Cash', 'R', None)])
 
@@ -235,7 +235,7 @@ def decorate(rng, x, plain=False):
         if x.state == '':
             p.mark = '*' if r < 0.15 else '!' if r < 0.25 else ''
         elif r < 0.01:
-            p.mark = '!' if x.state == '*' else '*'          # finding F22
+            p.mark = '!' if x.state == '*' else '*'          # finding F27
         elif r < 0.1:
             p.mark = x.state                                   # redundant mark
         p.note = rng.choice(PNOTES)
